@@ -60,13 +60,24 @@ func TestProp_Metadata(t *testing.T) {
 	vkit.SetRapidChecks(vkit.N(150))
 	w := vkit.NewWorld(vkit.WorldConfig{})
 	defer w.Close()
-	rig := vkit.NewRig(w, vkit.RigConfig{})
-	defer rig.Close()
+	plainRig := vkit.NewRig(w, vkit.RigConfig{})
+	defer plainRig.Close()
+	// a second listener whose application-configured options include values of the
+	// very kinds the connection metadata is made of (a default state for enrolled
+	// nodes, extra protocols): they are the application's, not the node's
+	listenerState := vkit.UniqueStruct("configured-on-the-listener")
+	optRig := vkit.NewRig(w, vkit.RigConfig{Options: append(w.O(), nodeenrollment.WithState(listenerState), nodeenrollment.WithExtraAlpnProtos([]string{"configured-on-the-listener"}))})
+	defer optRig.Close()
 	node := vkit.NewActor("node")
 	if err := w.Enroll(node); err != nil {
 		t.Fatalf("enroll: %v", err)
 	}
 	rapid.Check(t, func(t *rapid.T) {
+		rig := plainRig
+		listenerHasOptions := rapid.Bool().Draw(t, "listenerConfiguredWithStateAndProtocols")
+		if listenerHasOptions {
+			rig = optRig
+		}
 		kind, state := genState(t)
 		n := rapid.IntRange(0, 12).Draw(t, "nExtras")
 		var extras []string
@@ -137,7 +148,7 @@ func TestProp_Metadata(t *testing.T) {
 			conn, err = rig.Dial(node, opts...)
 		}
 		results := rig.Sync()
-		desc := map[string]any{"state": kind, "extras": shorten(extras)}
+		desc := map[string]any{"state": kind, "extras": shorten(extras), "listener_options_include_state_and_protocols": listenerHasOptions}
 		if state != nil {
 			b, _ := proto.Marshal(state)
 			desc["state_bytes"] = len(b)
